@@ -398,7 +398,7 @@ theorem fwd_removeEdgeFull (s : Db) (hi : s.Inv) (e a b : Nat) (he : s.graph.kin
 theorem fwd_removeBareNode (s : Db) (hi : s.Inv) (n : Nat) (hn : s.graph.kind n = .node)
     (hne : ∀ e a b, s.graph.kind e = .edge a b → a ≠ n ∧ b ≠ n)
     (hna : ∀ x, aliasValue s.aliases x ≠ some (n : Int)) :
-    Fwd s (Db.removeBareNode n s) := by
+    Fwd s (Db.removeBareNode n s) ∧ (Db.removeBareNode n s).graph.kind n = .free := by
   have hok := step_removeNode s.abs n hn
   have hp : pre (.removeNode (n : Int)) s.abs := by
     simp only [pre, Int.natAbs_natCast]; exact ⟨hn, hne⟩
@@ -416,7 +416,13 @@ theorem fwd_removeBareNode (s : Db) (hi : s.Inv) (n : Nat) (hn : s.graph.kind n 
     simp [this]
   have hix1 : IxInvG (aidOf s.abs) s1.abs := hi.binv.ix.congr (by rw [habs]; simp [aundo]) (by rw [habs]; simp [aundo])
   obtain ⟨r1, r2, r3, r4, r5, r6⟩ := und_removeAllValues (aidOf s.abs) (n : Int) hid hsig s1 hsi hix1
-  refine ⟨⟨r1, ?_⟩, hund.trans r3⟩
+  refine ⟨⟨⟨r1, ?_⟩, hund.trans r3⟩, ?_⟩
+  rotate_left
+  · show (Db.removeAllValues (n : Int) s1).graph.kind n = .free
+    rw [r4]
+    have := congrArg (fun A => A.kind n) habs
+    simp only [aundo, Int.natAbs_natCast, if_true] at this
+    exact this
   show BInv (Db.removeAllValues (n : Int) s1).abs
   have hkind : ∀ j, (Db.removeAllValues (n : Int) s1).abs.kind j = if j = n then .free else s.abs.kind j := by
     intro j
@@ -781,7 +787,8 @@ theorem fwd_removeNodeFull (s : Db) (hi : s.Inv) (id : Int) (alias : Option Stri
     (hal : match alias with
       | some a => aliasValue s.aliases a = some id
       | none => ∀ x, aliasValue s.aliases x ≠ some id) :
-    Fwd s (Db.removeNodeFull id alias s).2 := by
+    Fwd s (Db.removeNodeFull id alias s).2 ∧
+    ((Db.removeNodeFull id alias s).1 = .ok () → (Db.removeNodeFull id alias s).2.graph.kind id.natAbs = .free) := by
   -- alias part
   have step1 : Fwd s (Db.dropAlias id alias s) ∧ (Db.dropAlias id alias s).graph = s.graph ∧
       (∀ x, aliasValue (Db.dropAlias id alias s).aliases x ≠ some id) := by
@@ -830,9 +837,9 @@ theorem fwd_removeNodeFull (s : Db) (hi : s.Inv) (id : Int) (alias : Option Stri
       have : ((id.natAbs : Nat) : Int) = id := by omega
       rw [this]; exact hno x
     have f3 := fwd_removeBareNode s2 f2.1 id.natAbs hn2 hne2 hna2
-    exact (f1.trans f2).trans f3
+    exact ⟨(f1.trans f2).trans f3.1, fun _ => f3.2⟩
   · simp only [hnode]
-    exact f1
+    exact ⟨f1, fun h => by simp at h⟩
 
 theorem fwd_removeId (s : Db) (hi : s.Inv) (id : Int) : Fwd s (Db.removeId id s).2 := by
   unfold Db.removeId
@@ -849,7 +856,7 @@ theorem fwd_removeId (s : Db) (hi : s.Inv) (id : Int) : Fwd s (Db.removeId id s)
         | none => exact no_alias_of_key_none _ hi.sinv.aliasBij id hk
         | some a =>
           exact (aliasValue_eq_some _ hi.sinv.aliasBij.1 a id).mpr ((aliasKey_eq_some _ hi.sinv.aliasBij.2 a id).mp hk)
-      have := fwd_removeNodeFull s hi id (aliasKey s.aliases id) hpos hal
+      have := (fwd_removeNodeFull s hi id (aliasKey s.aliases id) hpos hal).1
       generalize Db.removeNodeFull id (aliasKey s.aliases id) s = r at *
       obtain ⟨r1, r2⟩ := r
       cases r1 <;> exact this
@@ -877,7 +884,7 @@ theorem fwd_remove (s : Db) (hi : s.Inv) (q : QId) : Fwd s (Db.remove q s).2 := 
     | some id =>
       simp only [Db.remove, hv]
       have hpos := (hi.binv.a2 a id hv).1
-      have := fwd_removeNodeFull s hi id (some a) hpos hv
+      have := (fwd_removeNodeFull s hi id (some a) hpos hv).1
       generalize Db.removeNodeFull id (some a) s = r at *
       obtain ⟨r1, r2⟩ := r
       cases r1 <;> exact this
